@@ -786,7 +786,7 @@ class Body:
                     if len(ds) == 1:
                         d = ds[0]
                         u = d
-                        while u[0] in ("deref", "ref", "cast", "field") or (u[0] == "call" and u[2] and TRANSPARENT.search(u[1])):
+                        while u[0] in ("deref", "ref", "cast", "field") or (u[0] == "call" and u[2] and ALIAS_CALL.search(u[1])):
                             u = u[2][0] if u[0] == "call" else u[1]
                         if u[0] in ("var", "param", "upvar") and u[:3] != t[:3] and not (u[0] == "var" and _is_loop_item(d)):
                             t = d
@@ -988,6 +988,10 @@ TRANSPARENT = re.compile(
     r"::borrow::Borrow<.*>::borrow|::to_owned$|::to_vec$|::unwrap$|::expect$|::into$|::From<.*>::from$|::Try>::branch$|"
     r"::as_str$|::as_slice$|::as_deref$|::as_bytes$|::to_string$|::cloned$|::copied$|::IntoIterator>::into_iter$|::iter$|::unwrap_or_default$)"
 )
+
+
+# calls that hand back (a view or copy of) their receiver without changing what it denotes
+ALIAS_CALL = re.compile(r"(::clone::Clone::clone|Clone>::clone|::deref::Deref::deref|::Deref>::deref|DerefMut>::deref_mut|::as_ref$|::as_mut$|::borrow::Borrow<.*>::borrow|::to_owned$)")
 
 
 def short_type(ty):
